@@ -108,9 +108,13 @@ def main(c):
         "without a UAX #14 break opportunity between them",
         "a grapheme is whitespace iff all its code points are White_Space; alphabet of generated texts: letters, "
         "letters with combining marks, space, hyphen, LF, CRLF, ideographs, fullwidth punctuation (closing, and opening: "
-        "glued to what follows), no-break space (white space glued on both sides), emoji with modifier",
+        "glued to what follows), no-break space (white space glued on both sides), emoji with modifier, digits (not letters)",
+        "UAX #14 LB4/LB5: the logged facts give a break opportunity after every line terminator whatever follows (uniseg v0.4.4 "
+        "reports none in front of a hyphen followed by a digit; the fact is only used between letters)",
         "giant texts (tens of thousands of graphemes, gen giant) are recorded run-length encoded and judged by WrapRelRL, "
-        "which MC_Wrap_rl checks against WrapRel on every small text; only the scanners are run for them, at most 200 lines "
+        "which MC_Wrap_rl checks against WrapRel on every small text; only the scanners are run for them (10 of them, lines "
+        "that keep more than 65535 columns of trailing white space at widths 3..10, are drawn as well: the surface is recorded "
+        "cell by cell when it has at most 4096 cells and judged by WrapRelRL!DrawOK), at most 200 lines "
         "per width are judged, and a scanner gets 120 s per width",
         "Draw is called with unbounded height (and, for the hard-wrap widget, a width larger than the longest line); "
         "zero-width graphemes are not required to be visible in a drawn row",
@@ -127,6 +131,9 @@ def main(c):
                 # nor is the letter-run demand vacuous on glued prefixes: a scanner that cuts an over-long segment
                 # wherever the line is full (no-break space + two letters at width 2) must be refuted as well
                 ("MC_Wrap_runcut.cfg", 2, True),
+                # nor is the hard-break demand on a scanner that leaves the detection of line terminators to a line
+                # segmenter which glues a terminator to a hyphen followed by a digit (newline, hyphen, digit: one line)
+                ("MC_Wrap_termtrust.cfg", 2, True),
                 # the run-length oracle that judges the giant texts gives the verdict of the oracle on every small
                 # text (on the scanner's lines and on damaged copies, packed maximally and one item per grapheme)
                 ("MC_Wrap_rl.cfg" if quick else "MC_Wrap_rl_deep.cfg", 4, False)]
@@ -183,6 +190,8 @@ def main(c):
              "{letter, letter+mark, space, hyphen, LF, ideograph, wide punctuation} x widths 1..8 (width 0 too up to "
              "length 3), thorough also every plain and rich text of length 6 over 6 classes x widths 1..6; plus seeded random "
              "texts of 6..40 graphemes and hand-written corner texts x widths 0..12; every text of length 1..4 over {letter, space, "
-             "wide opening punctuation, no-break space} x widths 0..6 (thorough 1..5 over 6 classes x widths ..7); 12 fixed giant "
-             "texts (up to 65546 graphemes) x 1..3 widths up to 65535, scanners only; every (text,width) is one scan "
+             "wide opening punctuation, no-break space} x widths 0..6 (thorough 1..5 over 6 classes x widths ..7); every text of length "
+             "1..4 over {letter, space, hyphen, LF, digit} x widths 0..4 for all three scanners (thorough 1..5 with ideographs, widths ..6); "
+             "22 fixed giant "
+             "texts (up to 65546 graphemes) x 1..3 widths up to 65535, scanners only but for 10 that are drawn too; every (text,width) is one scan "
              "event judged by WrapRel!Why and one draw event judged by WrapRel!DrawOK; distinct = distinct descriptor")
